@@ -218,6 +218,30 @@ def run(ctx):
         groups.append({'abbr': abbr, 'cfgs': {'a': ca, 'b': cb}, 'checks': [('cosmetic', 'a', 'b')]})
     for abbr, cfg, cls in FIXED_DEPTH:
         groups.append({'abbr': abbr, 'cfgs': {'a': cfg}, 'checks': [('depth', 'a', None)], 'class': cls})
+    # exhaustive operator skeletons over a block / inline name mix, with and without text:
+    # cosmetic (default options vs. no formatting / inlineBreak variants) and depth
+    max_units = 2 if ctx.tier == 'quick' else 3
+    ex_cfgs = [({}, {'options': {'output.format': False}}),
+               ({'options': {'output.inlineBreak': 1, 'output.indent': '  '}}, {'options': {'output.inlineBreak': 0, 'output.formatLeafNode': True}}),
+               ({'syntax': 'xml', 'options': {'output.formatSkip': ['div'], 'comment.enabled': True}},
+                {'syntax': 'xml', 'options': {'output.formatForce': ['p', 'em'], 'output.baseIndent': '\t', 'comment.enabled': True}})]
+    n_ex = 0
+    for nu in range(1, max_units + 1):
+        for k, st in enumerate(g.enum_stmts(nu, ['div', 'span', 'p', 'em'], ops=('>', '+', '^'), repeats=(None, 2))):
+            if k % 3 == 1:
+                for unit, _ in st:
+                    if isinstance(unit, g.El):
+                        unit.text = 'a\nb' if k % 2 else 't'
+            elif k % 3 == 2:
+                for unit, _ in st:
+                    if isinstance(unit, g.El):
+                        unit.id = 'i'
+            abbr = g.render(st)
+            ca, cb = ex_cfgs[k % len(ex_cfgs)]
+            groups.append({'abbr': abbr, 'cfgs': {'a': ca, 'b': cb, 'd': DEPTH_CFG},
+                           'checks': [('cosmetic', 'a', 'b'), ('depth', 'd', None)]})
+            n_ex += 1
+    ctx.cov['exhaustive_skeletons'] = {'max_units': max_units, 'statements': n_ex}
     n_fixed = len(groups)
     n = 700 if ctx.tier == 'quick' else 12000
     for _ in range(n):
